@@ -148,7 +148,7 @@ def write_replay(prop, modname, viol, tier, seed):
             'expected': viol['expected'], 'observed': viol['observed'], 'msg': viol['msg'],
             'group_size': viol['count'], 'seed': seed, 'tier': tier}
     digest = hashlib.sha1(json.dumps([viol['group'], viol['case']], sort_keys=True).encode()).hexdigest()[:12]
-    d = os.path.join(VERIF, 'replays')
+    d = os.environ.get('MC_REPLAY_DIR') or os.path.join(VERIF, 'replays')
     os.makedirs(d, exist_ok=True)
     path = os.path.join(d, '%s-%s.json' % (prop, digest))
     with open(path, 'w') as f:
@@ -287,7 +287,7 @@ def run_check(prop, tier, seed, jobs=None):
     ev = {'property_id': prop, 'tier': tier, 'seed': seed, 'level': level, 'coverage': cov,
           'assumptions': list(getattr(mod, 'ASSUMPTIONS', [])), 'wall_s': round(wall, 2),
           'violations': len(reported)}
-    evdir = os.path.join(VERIF, 'evidence')
+    evdir = os.environ.get('MC_EVIDENCE_DIR') or os.path.join(VERIF, 'evidence')
     os.makedirs(evdir, exist_ok=True)
     evpath = os.path.join(evdir, '%s.json' % prop)
     with open(evpath, 'w') as f:
